@@ -44,7 +44,7 @@ EXPECT = {  # seed directory -> harnesses expected to catch it
  "C11-nist-sk-from-repr": ["g5_p256_sk_decode"],
  "C13-ke2state-serde-shadow-order": ["dr_server_login", "ds_server_login"],
  "C16-pw-line-ending": ["s2_client_reg_start_pw2", "s6_pwd_key_len3"],
- "C19-x25519-dh-skip-clamp": ["g7_x25519_dh_vectors"],
+ "C19-x25519-dh-skip-clamp": ["g3_x25519_derive"],
 }
 def sh(cmd, **kw):
     return subprocess.run(cmd, shell=True, stdout=subprocess.PIPE, stderr=subprocess.STDOUT, text=True, **kw)
